@@ -75,7 +75,7 @@ class Run(object):
             except _TE() as e:
                 outs.append(("TraphException", None))
         kinds = set(o[0] for o in outs)
-        expect(len(kinds) == 1, "C15: back-ends disagree on outcome", [o[0] for o in outs])
+        expect(len(kinds) == 1, "the on-disk index and its in-memory twin disagree on success/failure", [o[0] for o in outs])
         return outs
 
     def _reports_equal(self, outs):
@@ -86,11 +86,11 @@ class Run(object):
             expect(
                 a.nb_created_pages == b.nb_created_pages
                 and a.created_webentities == b.created_webentities,
-                "C15: reports differ between file and memory",
+                "reports differ between the on-disk index and its in-memory twin (C11: reopened vs never closed; C15: file vs memory)",
                 [repr(a), repr(b)],
             )
         else:
-            expect(a == b, "C15: results differ between file and memory", [repr(a), repr(b)])
+            expect(a == b, "results differ between the on-disk index and its in-memory twin", [repr(a), repr(b)])
 
     def _check_creations(self, rep, expected):
         """expected: list of (K, attach-list) in creation order"""
@@ -322,7 +322,7 @@ def gen_history(seed, nops, alpha="short", mode="plain", kinds=None, reopen=Fals
 
     kinds = list(
         kinds
-        or ["page", "page", "pages", "links", "batch", "create", "addp", "rmp", "del", "move"]
+        or ["page", "page", "pages", "links", "batch", "create", "createpage", "addp", "rmp", "del", "move"]
     )
     if reopen:
         kinds.append("reopen")
@@ -368,12 +368,12 @@ def gen_history(seed, nops, alpha="short", mode="plain", kinds=None, reopen=Fals
         elif k == "create":
             ps = list(dict.fromkeys(rl((1, 3)) for _ in range(r.randint(1, 2))))
             ops.append(["create", ps])
-        elif k in ("addp", "rmp", "del", "move"):
+        elif k in ("addp", "rmp", "del", "move", "createpage"):
             ops.append(["@" + k, rl((1, 3)), r.randint(0, 7), r.randint(0, 7)])
         elif k == "rule":
             a = rand_web_lru(r)
             a = b"".join(stems_of(a)[: r.randint(2, 4)])
-            ops.append(["rule", a, r.choice(["path1", "path2", "subdomain"])])
+            ops.append(["rule", a, r.choice(["path1", "path2", "subdomain", "lowerpath1"])])
         elif k == "reopen":
             ops.append(["reopen"])
         elif k == "clear":
@@ -390,6 +390,12 @@ def resolve_op(op, m):
     _, lru, i, j = op
     prefs = sorted(m.pref)
     ids = sorted(set(m.pref.values()))
+    if k == "@createpage":
+        # a webentity whose prefix is itself an indexed page (possibly nested)
+        cands = [l for l in sorted(m.pages) if l not in m.pref]
+        if not cands:
+            return None
+        return ["create", [cands[i % len(cands)]]]
     if k == "@addp":
         if not ids:
             return None
